@@ -49,6 +49,8 @@ type FnVC struct {
 	coveredCallsites map[string]bool
 	modSet     []modTarget
 	modGlobals []string
+	seqCache   map[string]Term
+	exclAx     map[string]bool
 }
 
 type InputVar struct {
@@ -116,7 +118,15 @@ func smtName(n string) string {
 }
 
 func (vc *FnVC) entryVar(name, sort string) Term {
+	_, seen := vc.declared[name+"@0"]
 	t := vc.declOnce(name+"@0", sort)
+	if !seen {
+		if name == "clk" {
+			vc.assume(tEq(t, tInt(0)))
+		}
+		// every reference stored in the heap at entry was allocated before entry (so it differs from anything allocated later)
+		vc.assume(vc.sess.te.refBound(name, t, tInt(0)))
+	}
 	return t
 }
 
@@ -158,6 +168,7 @@ func (vc *FnVC) note(s string) {
 // Query builds the SMT-LIB text for obligation item index i.
 func (vc *FnVC) Query(i int, pre *Prelude, getModel bool) string {
 	var b strings.Builder
+	var earlier []string
 	for j := 0; j < i; j++ {
 		it := vc.items[j]
 		switch it.Kind {
@@ -166,19 +177,31 @@ func (vc *FnVC) Query(i int, pre *Prelude, getModel bool) string {
 			b.WriteByte('\n')
 		case ItemAssume:
 			b.WriteString("(assert " + it.Text + ")\n")
+			earlier = append(earlier, it.Text)
 		case ItemOblig:
 			if it.Kept && it.Text != "true" {
 				b.WriteString("(assert " + it.Text + ")\n")
+				earlier = append(earlier, it.Text)
 			}
 		}
 	}
-	b.WriteString("(assert (not " + vc.items[i].Text + "))\n")
+	if decls, insts, neg, ok := skolemGoal(vc.items[i].Text, earlier); ok {
+		for _, d := range decls {
+			b.WriteString(d + "\n")
+		}
+		for _, a := range insts {
+			b.WriteString(a + " ; instance at the goal's skolem constants\n")
+		}
+		b.WriteString("(assert " + neg + ")\n")
+	} else {
+		b.WriteString("(assert (not " + vc.items[i].Text + "))\n")
+	}
 	b.WriteString("(check-sat)\n")
 	if getModel {
 		b.WriteString("(get-model)\n")
 	}
 	body := b.String()
-	return "(set-option :produce-models true)\n(set-logic ALL)\n" + pre.For(body) + body
+	return "(set-option :produce-models true)\n(set-logic ALL)\n" + pre.ForExcl(body, vc.exclAx) + body
 }
 
 // GroundQuery is Query with every quantified assumption dropped (the goal is kept): used only to search for candidate
